@@ -17,6 +17,8 @@ class Interp(InterpCore, ExprMixin, CallMixin):
     def __init__(self, prog: Program, model: Model, **kw: Any) -> None:
         super().__init__(prog, **kw)
         self.model = model
+        # accumulator methods of ValidationResult are summarised (their source shape is checked by C02.RESULT-ACC)
+        self.contracts.setdefault("d42.validation._validation_result.ValidationResult.add_errors", _c_add_errors)
 
     # ---- builders (must be called inside a path run: objects are per-path) ----
     def make_instance(self, cls_name: str, **attrs: V) -> Inst:
@@ -42,6 +44,16 @@ class Interp(InterpCore, ExprMixin, CallMixin):
     def make_schema(self, st: SchemaType, setprops: Iterable[str], overrides: Optional[Dict[str, V]] = None,
                     origin: str = "param") -> SchemaV:
         return SchemaV(st.cls, self.make_props(st, setprops, overrides), origin)
+
+
+def _c_add_errors(interp: Any, fv: FuncV, args: List[Any], kwargs: Dict[str, V], node: Any) -> Optional[V]:
+    recv = fv.self_val
+    if isinstance(recv, Inst) and isinstance(recv.attrs.get("_errors"), ListV) and args:
+        interp.emit("call", node, callee=fv.func.qualname, args=args, kwargs=kwargs, resolved=True, inlined=False,
+                    self_val=recv, summarised=True)
+        interp._list_extend(recv.attrs["_errors"], args[0], node)
+        return recv
+    return None
 
 
 def kwargs_spread(name: str = "kwargs") -> Dict[str, V]:
